@@ -1,24 +1,30 @@
 (* Model of the single-replica metadynamics bias of src/colvarbias_meta.cpp
    (update -> update_grid_params, update_bias, update_grid_data, calc_energy, calc_forces;
-   add_hill, calc_hills, calc_hills_force, project_hills) on scalar variables.
-   Definitions only; generic over the numeric carrier.  The state variables are those of the
-   code: the hill list split at new_hills_begin (st_old ++ st_new), hills_off_grid, the energy
-   and gradient grids (total functions of the index vector, DESIGN 3.3; only in-range indices
-   are ever read -- an out-of-range read of the code is recorded in st_ub), the grid geometry.
-   The specification (explicit sums of analytic hills, no grids) is in the second section. *)
+   add_hill, calc_hills, calc_hills_force, project_hills, hill_width_bins; the projection done by
+   write_state_data) on scalar variables (periodic or not, with grids) and on 3-vector / unit-vector
+   variables (without grids).  Definitions only; generic over the numeric carrier.
+   The state variables are those of the code: the hill list split at new_hills_begin
+   (st_old ++ st_new), hills_off_grid split at new_hills_off_grid_begin (st_off_old ++ st_off_new),
+   the energy and gradient grids (total functions of the index vector, DESIGN 3.3; only in-range
+   indices are ever read), the grid geometry.
+   The value of a variable is the list of its components (one for a scalar, three for a vector).
+   The specification (explicit sums of analytic hills, no grids) is in MetaProofs.v. *)
 From Coq Require Import ZArith List Bool.
 From CV Require Import Base.Num C15.GridModel.
 Import ListNotations.
 Local Open Scope Z_scope.
 
+Inductive vkind := KScalar | KVec3 | KUnit3 | KQuat.
+
 Section Meta.
   Context {T : Type} (O : NumOps T).
 
   Record var_cfg := mkVar {
-    v_periodic : bool;    (* f_cvc_periodic: dist2 takes the minimum image *)
+    v_kind : vkind;       (* colvarvalue type of the variable: scalar, 3vector (distanceVec), unit3vector (distanceDir) *)
+    v_periodic : bool;    (* f_cvc_periodic: dist2 takes the minimum image (scalars) *)
     v_period : T;
     v_sigma : T;          (* colvar_sigmas[i] *)
-    v_width : T;          (* widths[i] of the grids *)
+    v_width : T;          (* widths[i] of the grids = colvar::width *)
     v_gperiodic : bool;   (* colvar_grid::periodic[i] *)
     v_expand : bool;      (* colvar::expand_boundaries *)
     v_hard_lo : bool;     (* f_cv_hard_lower_boundary *)
@@ -39,20 +45,34 @@ Section Meta.
     c_wt : bool;                   (* well_tempered *)
     c_bias_temp : T;               (* bias_temperature *)
     c_kb : T;                      (* proxy->boltzmann() *)
-    c_step_zero : bool             (* f_cvb_step_zero_data *)
+    c_step_zero : bool;            (* f_cvb_step_zero_data *)
+    c_eb : bool;                   (* ebmeta *)
+    c_eb_equil : Z;                (* ebmeta_equil_steps *)
+    c_eb_target : list Z -> T      (* target_dist (after normalisation at initialisation), by bin index; same
+                                      boundaries as the variables (c_geom0): ebMeta excludes expandBoundaries *)
   }.
 
-  Record hill := mkHill { h_it : Z; h_W : T; h_c : list T }.
+  Local Notation value := (list T).      (* components of one variable *)
+  Record hill := mkHill { h_it : Z; h_W : T; h_c : list value }.
 
   (* one engine step as seen by the bias *)
   Record step_in := mkIn {
     i_it : Z;          (* cvm::step_absolute() *)
     i_rel : Z;         (* cvm::step_relative() *)
     i_cont : bool;     (* proxy->simulation_continuing() *)
-    i_x : list T       (* colvar_values *)
+    i_x : list value   (* colvar_values *)
   }.
 
-  (* ---- kernel: calc_hills / calc_hills_force ---- *)
+  (* what happens to the bias: a step of the engine; the state being written (end of a run, restart
+     frequency); a restart: the state is written and read by a fresh instance with the same configuration,
+     except, with [Some g], for new grid boundaries g and rebinGrids on; a reload: the state is written and read
+     back by the same instance, which already holds hills *)
+  Inductive event := EStep (i : step_in) | ESave | ERestart (rebin : option (list bound)) | EReload.
+
+  (* ---- metric of one variable: colvar::dist2 / dist2_lgrad ---- *)
+
+  Definition sc (x : value) : T := match x with a :: _ => a | [] => n0 O end.
+  Definition comp (x : value) (k : nat) : T := nth k x (n0 O).
 
   (* colvar::cvc::dist2 / dist2_lgrad: diff, minus floor(diff/period + 0.5)*period when periodic *)
   Definition vdiff (v : var_cfg) (x c : T) : T :=
@@ -61,63 +81,139 @@ Section Meta.
     then nsub O d (nmul O (nofZ O (nfloor O (nadd O (ndiv O d (v_period v)) (nhalf O)))) (v_period v))
     else d.
 
+  Definition dot3 (a b : value) : T :=
+    nadd O (nadd O (nmul O (comp a 0) (comp b 0)) (nmul O (comp a 1) (comp b 1))) (nmul O (comp a 2) (comp b 2)).
+  Definition sub3 (a b : value) : value :=
+    [nsub O (comp a 0) (comp b 0); nsub O (comp a 1) (comp b 1); nsub O (comp a 2) (comp b 2)].
+  Definition scale3 (s : T) (a : value) : value := [nmul O s (comp a 0); nmul O s (comp a 1); nmul O s (comp a 2)].
+  Definition clamp1 (c : T) : T :=
+    if nltb O (n1 O) c then n1 O else if nltb O c (nneg O (n1 O)) then nneg O (n1 O) else c.
+  Definition dot4 (a b : value) : T :=
+    nadd O (nadd O (nadd O (nmul O (comp a 0) (comp b 0)) (nmul O (comp a 1) (comp b 1))) (nmul O (comp a 2) (comp b 2)))
+           (nmul O (comp a 3) (comp b 3)).
+  Definition mpi : T := nacos O (nneg O (n1 O)).       (* PI *)
+  Definition tiny14 : T := ndiv O (n1 O) (nofZ O 100000000000000).
+  Definition tiny28 : T := ndiv O (n1 O) (nmul O (nofZ O 100000000000000) (nofZ O 100000000000000)).
+
+  (* dist2(x, center) *)
+  Definition vdist2 (v : var_cfg) (x c : value) : T :=
+    match v_kind v with
+    | KScalar => nsq O (vdiff v (sc x) (sc c))
+    | KVec3 => let d := sub3 c x in dot3 d d                      (* distance_vec::dist2: |x2 - x1|^2 *)
+    | KUnit3 => let th := nacos O (clamp1 (dot3 x c)) in nmul O th th   (* colvarvalue::dist2, unit3vector *)
+    | KQuat =>                                                       (* cvm::quaternion::dist2: q and -q are the same *)
+        let co := dot4 x c in
+        let om := nacos O (clamp1 co) in
+        if nltb O (n0 O) co then nmul O om om else nmul O (nsub O mpi om) (nsub O mpi om)
+    end.
+
+  (* dist2_lgrad(x, center): derivative with respect to x, one entry per component *)
+  Definition vlgrad (v : var_cfg) (x c : value) : value :=
+    match v_kind v with
+    | KScalar => [nmul O (nofZ O 2) (vdiff v (sc x) (sc c))]
+    | KVec3 => scale3 (nofZ O 2) (sub3 x c)                        (* 2 * position_distance(x2, x1) *)
+    | KUnit3 =>
+        let co := dot3 x c in
+        let s2 := nsub O (n1 O) (nmul O co co) in
+        if nltb O (n0 O) co && nltb O s2 tiny28 then [n0 O; n0 O; n0 O]
+        else scale3 (ndiv O (nmul O (nmul O (nofZ O 2) (nacos O co)) (nneg O (n1 O))) (nsqrt O s2)) c
+    | KQuat =>                                                       (* cvm::quaternion::dist2_grad *)
+        let co := dot4 x c in
+        let om := nacos O (clamp1 co) in
+        let so := nsin O om in
+        if nltb O (nabs O so) tiny14 then [n0 O; n0 O; n0 O; n0 O]
+        else
+          let g k := nadd O (nmul O (nmul O (nneg O (n1 O)) so) (comp c k))
+                            (ndiv O (nmul O co (nsub O (comp x k) (nmul O co (comp c k)))) so) in
+          let f := if nltb O (n0 O) co then nmul O (nofZ O 2) om
+                   else nmul O (nneg O (nofZ O 2)) (nsub O mpi om) in
+          [nmul O f (g 0%nat); nmul O f (g 1%nat); nmul O f (g 2%nat); nmul O f (g 3%nat)]
+    end.
+
+  (* ---- kernel: calc_hills / calc_hills_force ---- *)
+
   (* cv_sqdev += dist2(x, center) / (sigma*sigma) *)
-  Fixpoint sqdev (vs : list var_cfg) (x c : list T) (acc : T) : T :=
+  Fixpoint sqdev (vs : list var_cfg) (x c : list value) (acc : T) : T :=
     match vs, x, c with
     | v :: vs', xi :: x', ci :: c' =>
-        sqdev vs' x' c' (nadd O acc (ndiv O (nsq O (vdiff v xi ci)) (nmul O (v_sigma v) (v_sigma v))))
+        sqdev vs' x' c' (nadd O acc (ndiv O (vdist2 v xi ci) (nmul O (v_sigma v) (v_sigma v))))
     | _, _, _ => acc
     end.
 
   (* h->value(): 0 if cv_sqdev > 23.0, else exp(-0.5*cv_sqdev) *)
-  Definition kval (vs : list var_cfg) (x c : list T) : T :=
+  Definition kval (vs : list var_cfg) (x c : list value) : T :=
     let q := sqdev vs x c (n0 O) in
     if nltb O (nofZ O 23) q then n0 O else nexp O (nmul O (nneg O (nhalf O)) q).
 
   Definition hweight (h : hill) : T := nmul O (h_W h) (n1 O).            (* W * sW, sW = 1 *)
-  Definition henergy (vs : list var_cfg) (x : list T) (h : hill) : T :=   (* W * sW * hill_value *)
+  Definition henergy (vs : list var_cfg) (x : list value) (h : hill) : T :=   (* W * sW * hill_value *)
     nmul O (hweight h) (kval vs x (h_c h)).
 
   (* calc_hills: energy += h->energy() over [first, last) *)
-  Definition hills_energy (vs : list var_cfg) (x : list T) (hs : list hill) (e0 : T) : T :=
+  Definition hills_energy (vs : list var_cfg) (x : list value) (hs : list hill) (e0 : T) : T :=
     fold_left (fun e h => nadd O e (henergy vs x h)) hs e0.
 
-  (* weight*value * (0.5/(sigma*sigma)) * dist2_lgrad, one entry per variable *)
-  Fixpoint fcomps (vs : list var_cfg) (x c : list T) (wk : T) : list T :=
-    match vs, x, c with
-    | v :: vs', xi :: x', ci :: c' =>
-        nmul O (nmul O wk (ndiv O (nhalf O) (nmul O (v_sigma v) (v_sigma v))))
-               (nmul O (nofZ O 2) (vdiff v xi ci)) :: fcomps vs' x' c' wk
+  (* weight*value * (0.5/(sigma*sigma)) * dist2_lgrad, for variable i *)
+  Definition fterm (vs : list var_cfg) (x c : list value) (wk : T) (i : nat) : value :=
+    match nth_error vs i, nth_error x i, nth_error c i with
+    | Some v, Some xi, Some ci =>
+        map (nmul O (nmul O wk (ndiv O (nhalf O) (nmul O (v_sigma v) (v_sigma v))))) (vlgrad v xi ci)
     | _, _, _ => []
+    end.
+
+  Fixpoint vadd (a b : value) : value :=
+    match a, b with
+    | p :: a', q :: b' => nadd O p q :: vadd a' b'
+    | _, _ => a
     end.
 
   (* calc_hills_force for variable i: hills whose value is 0 are skipped *)
-  Definition hforce (vs : list var_cfg) (x : list T) (i : nat) (f : T) (h : hill) : T :=
+  Definition hforce (vs : list var_cfg) (x : list value) (i : nat) (f : value) (h : hill) : value :=
     let k := kval vs x (h_c h) in
     if neqb O k (n0 O) then f
-    else nadd O f (nth i (fcomps vs x (h_c h) (nmul O (hweight h) k)) (n0 O)).
-  Definition hills_force (vs : list var_cfg) (x : list T) (i : nat) (hs : list hill) (f0 : T) : T :=
+    else vadd f (fterm vs x (h_c h) (nmul O (hweight h) k) i).
+  Definition hills_force (vs : list var_cfg) (x : list value) (i : nat) (hs : list hill) (f0 : value) : value :=
     fold_left (hforce vs x i) hs f0.
 
-  (* ---- grid geometry ---- *)
+  (* colvar_forces[i].reset(): zero, with the number of components of the variable *)
+  Definition vzero (v : var_cfg) : value :=
+    match v_kind v with KScalar => [n0 O] | KQuat => [n0 O; n0 O; n0 O; n0 O] | _ => [n0 O; n0 O; n0 O] end.
+  Definition fzero (vs : list var_cfg) (i : nat) : value :=
+    match nth_error vs i with Some v => vzero v | None => [] end.
 
-  Fixpoint centre (vs : list var_cfg) (g : list bound) (ix : list Z) : list T :=
+  (* ---- grid geometry (scalar variables) ---- *)
+
+  Definition scalars (x : list value) : list T := map sc x.
+
+  Fixpoint centre (vs : list var_cfg) (g : list bound) (ix : list Z) : list value :=
     match vs, g, ix with
-    | v :: vs', b :: g', i :: ix' => bin_to_value O (b_lower b) (v_width v) i :: centre vs' g' ix'
+    | v :: vs', b :: g', i :: ix' => [bin_to_value O (b_lower b) (v_width v) i] :: centre vs' g' ix'
     | _, _, _ => []
     end.
-  Fixpoint cbins (vs : list var_cfg) (g : list bound) (x : list T) : list Z :=
+  (* get_colvars_index: no wrapping *)
+  Fixpoint cbins (vs : list var_cfg) (g : list bound) (x : list value) : list Z :=
     match vs, g, x with
-    | v :: vs', b :: g', xi :: x' => value_to_bin O (b_lower b) (v_width v) xi :: cbins vs' g' x'
+    | v :: vs', b :: g', xi :: x' => value_to_bin O (b_lower b) (v_width v) (sc xi) :: cbins vs' g' x'
     | _, _, _ => []
     end.
+  (* wrap_detect_edge: periodic dimensions are wrapped, ((ix % nx) + nx) % nx with the C++ remainder *)
+  Fixpoint wrapix (vs : list var_cfg) (g : list bound) (ix : list Z) : list Z :=
+    match vs, g, ix with
+    | v :: vs', b :: g', i :: ix' =>
+        (if v_gperiodic v then Z.rem (Z.rem i (b_nx b) + b_nx b) (b_nx b) else i) :: wrapix vs' g' ix'
+    | _, _, _ => []
+    end.
+  (* the index used by calc_energy, calc_forces and the well-tempered factor *)
+  Definition gbins (vs : list var_cfg) (g : list bound) (x : list value) : list Z :=
+    wrapix vs g (cbins vs g x).
   Definition gsizes (g : list bound) : list Z := map b_nx g.
 
   (* colvar_grid::bin_distance_from_boundaries(values, skip_hard_boundaries = true) *)
-  Fixpoint bin_dist (vs : list var_cfg) (g : list bound) (x : list T) (minimum : T) : T :=
+  Fixpoint bin_dist (vs : list var_cfg) (g : list bound) (x : list value) (minimum : T) : T :=
     match vs, g, x with
-    | v :: vs', b :: g', xi :: x' =>
+    | v :: vs', b :: g', xv :: x' =>
         if v_gperiodic v then bin_dist vs' g' x' minimum else
+        let xi := sc xv in
         let dl0 := ndiv O (nsqrt O (nsq O (vdiff v xi (b_lower b)))) (v_width v) in
         let du0 := ndiv O (nsqrt O (nsq O (vdiff v xi (b_upper b)))) (v_width v) in
         let dl := if nltb O xi (b_lower b) then nmul O dl0 (nneg O (n1 O)) else dl0 in
@@ -128,10 +224,15 @@ Section Meta.
     | _, _, _ => minimum
     end.
 
-  (* (3.0 * floor(hill_width)) + 1.0 *)
-  Definition off_margin (c : cfg) : T :=
-    nadd O (nmul O (nofZ O 3) (nofZ O (nfloor O (c_hill_width c)))) (n1 O).
-  Definition near_edge (c : cfg) (g : list bound) (x : list T) : bool :=
+  (* hill_width_bins(): hill_width, or the largest 2*sigma/width when gaussianSigmas is used *)
+  Definition hw_bins (c : cfg) : T :=
+    if nltb O (n0 O) (c_hill_width c) then c_hill_width c
+    else fold_left (fun w v => let wi := ndiv O (nmul O (nofZ O 2) (v_sigma v)) (v_width v) in
+                               if nltb O w wi then wi else w) (c_vars c) (c_hill_width c).
+
+  (* (3.0 * hill_width_bins()) + 1.0 *)
+  Definition off_margin (c : cfg) : T := nadd O (nmul O (nofZ O 3) (hw_bins c)) (n1 O).
+  Definition near_edge (c : cfg) (g : list bound) (x : list value) : bool :=
     nltb O (bin_dist (c_vars c) g x (nofZ O 10000000000000000)) (off_margin c).
 
   (* ---- state ---- *)
@@ -139,19 +240,21 @@ Section Meta.
   Record state := mkState {
     st_old : list hill;               (* hills before new_hills_begin *)
     st_new : list hill;               (* hills from new_hills_begin on (not yet projected) *)
-    st_off : list hill;               (* hills_off_grid *)
+    st_off_old : list hill;           (* hills_off_grid before new_hills_off_grid_begin *)
+    st_off_new : list hill;           (* hills_off_grid from new_hills_off_grid_begin on *)
     st_e : list Z -> T;               (* hills_energy *)
     st_g : list Z -> nat -> T;        (* hills_energy_gradients *)
     st_geom : list bound;
-    st_ub : bool                      (* an out-of-range grid element has been read *)
+    st_traj : list hill               (* hills_traj_os_buf (writeHillsTrajectory): one record per add_hill *)
   }.
 
   Definition init_state (c : cfg) : state :=
-    mkState [] [] [] (fun _ => n0 O) (fun _ _ => n0 O) (c_geom0 c) false.
+    mkState [] [] [] [] (fun _ => n0 O) (fun _ _ => n0 O) (c_geom0 c) [].
 
   (* ---- update_grid_params: expansion of the grids ---- *)
 
-  Definition min_buffer (c : cfg) : Z := 3 * nfloor O (c_hill_width c) + 1.
+  (* ((int) floor(3.0 * hill_width_bins())) + 1 *)
+  Definition min_buffer (c : cfg) : Z := nfloor O (nmul O (nofZ O 3) (hw_bins c)) + 1.
 
   Definition expand_var (c : cfg) (v : var_cfg) (b : bound) (xi : T) : bound :=
     if negb (v_expand v) then b else
@@ -167,9 +270,9 @@ Section Meta.
       else (b_upper b, n1') in
     mkBound lb1 ub2 n2.
 
-  Fixpoint expand_geom (c : cfg) (vs : list var_cfg) (g : list bound) (x : list T) : list bound :=
+  Fixpoint expand_geom (c : cfg) (vs : list var_cfg) (g : list bound) (x : list value) : list bound :=
     match vs, g, x with
-    | v :: vs', b :: g', xi :: x' => expand_var c v b xi :: expand_geom c vs' g' x'
+    | v :: vs', b :: g', xi :: x' => expand_var c v b (sc xi) :: expand_geom c vs' g' x'
     | _, _, _ => []
     end.
 
@@ -188,21 +291,43 @@ Section Meta.
     | _, _, _, _ => []
     end.
 
-  Definition update_grid_params (c : cfg) (s : state) (i : step_in) : state :=
+  Definition update_grid_params (c : cfg) (s : state) (x : list value) : state :=
     if c_use_grids c && existsb v_expand (c_vars c) then
-      let g' := expand_geom c (c_vars c) (st_geom s) (i_x i) in
+      let g' := expand_geom c (c_vars c) (st_geom s) x in
       if geom_changed (st_geom s) g' then
         let gold := st_geom s in
         let eold := st_e s in
         let gradold := st_g s in
-        mkState (st_old s) (st_new s) (st_off s)
+        mkState (st_old s) (st_new s) (st_off_old s) (st_off_new s)
           (fun ix => let oix := remap_ix (c_vars c) g' gold ix in
                      if index_ok (gsizes gold) oix then eold oix else n0 O)
           (fun ix k => let oix := remap_ix (c_vars c) g' gold ix in
                        if index_ok (gsizes gold) oix then gradold oix k else n0 O)
-          g' (st_ub s)
+          g' (st_traj s)
       else s
     else s.
+
+  (* ---- calc_energy / calc_forces ---- *)
+
+  Definition inside (c : cfg) (s : state) (x : list value) : bool :=
+    c_use_grids c && index_ok (gsizes (st_geom s)) (gbins (c_vars c) (st_geom s) x).
+
+  (* grid at the (wrapped) current bin when it is on the grid, else the projected hills near the edges;
+     plus the hills not yet projected *)
+  Definition calc_energy (c : cfg) (s : state) (x : list value) : T :=
+    let e0 := if inside c s x
+              then nadd O (n0 O) (st_e s (gbins (c_vars c) (st_geom s) x))
+              else hills_energy (c_vars c) x (st_off_old s) (n0 O) in
+    hills_energy (c_vars c) x (st_new s) e0.
+
+  Definition calc_force (c : cfg) (s : state) (x : list value) (k : nat) : value :=
+    let f0 := if inside c s x
+              then [nadd O (n0 O) (nmul O (nneg O (n1 O)) (st_g s (gbins (c_vars c) (st_geom s) x) k))]
+              else hills_force (c_vars c) x k (st_off_old s) (fzero (c_vars c) k) in
+    hills_force (c_vars c) x k (st_new s) f0.
+
+  Definition calc_forces (c : cfg) (s : state) (x : list value) : list value :=
+    map (calc_force c s x) (seq 0 (length (c_vars c))).
 
   (* ---- update_bias: deposition ---- *)
 
@@ -213,26 +338,44 @@ Section Meta.
   Definition deposit_now (c : cfg) (i : step_in) : bool :=
     (i_it i mod c_freq c =? 0) && can_accumulate c i && (0 <? c_freq c).
 
-  (* hills_energy_sum_here of the well-tempered branch, and whether the read was out of range *)
-  Definition wt_energy_here (c : cfg) (s : state) (x : list T) : T * bool :=
-    if c_use_grids c then
-      let ix := cbins (c_vars c) (st_geom s) x in
-      if index_ok (gsizes (st_geom s)) ix then (st_e s ix, false) else (n0 O, true)
-    else (hills_energy (c_vars c) x (st_new s) (n0 O), false).
+  (* hills_energy_sum_here of the well-tempered branch: the same sum as calc_energy *)
+  Definition wt_energy_here (c : cfg) (s : state) (x : list value) : T := calc_energy c s x.
 
-  Definition wt_scale (c : cfg) (v : T) : T :=
-    nmul O (n1 O) (nexp O (ndiv O (nmul O (nneg O (n1 O)) v) (nmul O (c_bias_temp c) (c_kb c)))).
+  (* wrap_to_edge: periodic dimensions are wrapped, the others brought back to the closest edge bin *)
+  Fixpoint edgeix (vs : list var_cfg) (g : list bound) (ix : list Z) : list Z :=
+    match vs, g, ix with
+    | v :: vs', b :: g', i :: ix' =>
+        (if v_gperiodic v then Z.rem (Z.rem i (b_nx b) + b_nx b) (b_nx b)
+         else if i <? 0 then 0 else if i >=? b_nx b then b_nx b - 1 else i) :: edgeix vs' g' ix'
+    | _, _, _ => []
+    end.
+  (* the bin of the target distribution of ebMeta at x *)
+  Definition tbins (c : cfg) (x : list value) : list Z :=
+    edgeix (c_vars c) (c_geom0 c) (cbins (c_vars c) (c_geom0 c) x).
+
+  (* ebMeta: hills_scale *= 1/target_dist(current bin), ramped in during the first ebmeta_equil_steps steps
+     (hills_lambda = (equil - step)/equil; hills_scale = lambda + (1-lambda)*hills_scale) *)
+  Definition eb_scale (c : cfg) (i : step_in) : T :=
+    if c_eb c then
+      let r := nmul O (n1 O) (ndiv O (n1 O) (c_eb_target c (tbins c (i_x i)))) in
+      if i_it i <? c_eb_equil c then
+        let lam := ndiv O (nofZ O (c_eb_equil c - i_it i)) (nofZ O (c_eb_equil c)) in
+        nadd O lam (nmul O (nsub O (n1 O) lam) r)
+      else r
+    else n1 O.
 
   Definition update_bias (c : cfg) (s : state) (i : step_in) : state :=
     if deposit_now c i then
-      let '(scale, ub) :=
-        if c_wt c then (let '(v, ub) := wt_energy_here c s (i_x i) in (wt_scale c v, ub))
-        else (n1 O, false) in
+      let s1 := eb_scale c i in
+      let scale := if c_wt c
+                   then nmul O s1 (nexp O (ndiv O (nmul O (nneg O (n1 O)) (wt_energy_here c s (i_x i)))
+                                               (nmul O (c_bias_temp c) (c_kb c))))
+                   else s1 in
       let h := mkHill (i_it i) (nmul O (c_weight c) scale) (i_x i) in
       (* add_hill *)
-      mkState (st_old s) (st_new s ++ [h])
-              (if c_use_grids c && near_edge c (st_geom s) (i_x i) then st_off s ++ [h] else st_off s)
-              (st_e s) (st_g s) (st_geom s) (st_ub s || ub)
+      mkState (st_old s) (st_new s ++ [h]) (st_off_old s)
+              (if c_use_grids c && near_edge c (st_geom s) (i_x i) then st_off_new s ++ [h] else st_off_new s)
+              (st_e s) (st_g s) (st_geom s) (st_traj s ++ [h])
     else s.
 
   (* ---- update_grid_data: project_hills(new_hills_begin, end) every grids_freq steps ---- *)
@@ -242,47 +385,85 @@ Section Meta.
     let g := st_geom s in
     let eold := st_e s in
     let gradold := st_g s in
-    mkState (if c_keep c then st_old s ++ st_new s else []) [] (st_off s)
+    mkState (if c_keep c then st_old s ++ st_new s else []) [] (st_off_old s ++ st_off_new s) []
       (fun ix => nadd O (eold ix) (hills_energy (c_vars c) (centre (c_vars c) g ix) batch (n0 O)))
-      (fun ix k => nsub O (gradold ix k) (hills_force (c_vars c) (centre (c_vars c) g ix) k batch (n0 O)))
-      g (st_ub s).
+      (fun ix k => nsub O (gradold ix k) (sc (hills_force (c_vars c) (centre (c_vars c) g ix) k batch [n0 O])))
+      g (st_traj s).
 
   Definition update_grid_data (c : cfg) (s : state) (i : step_in) : state :=
     if i_it i mod c_gfreq c =? 0 then project c s else s.
 
-  (* ---- calc_energy / calc_forces ---- *)
-
-  Definition inside (c : cfg) (s : state) (x : list T) : bool :=
-    c_use_grids c && index_ok (gsizes (st_geom s)) (cbins (c_vars c) (st_geom s) x).
-
-  Definition calc_energy (c : cfg) (s : state) (x : list T) : T :=
-    let e0 := if inside c s x
-              then nadd O (n0 O) (st_e s (cbins (c_vars c) (st_geom s) x))
-              else hills_energy (c_vars c) x (st_off s) (n0 O) in
-    hills_energy (c_vars c) x (st_new s) e0.
-
-  Definition calc_force (c : cfg) (s : state) (x : list T) (k : nat) : T :=
-    let f0 := if inside c s x
-              then nadd O (n0 O) (nmul O (nneg O (n1 O)) (st_g s (cbins (c_vars c) (st_geom s) x) k))
-              else hills_force (c_vars c) x k (st_off s) (n0 O) in
-    hills_force (c_vars c) x k (st_new s) f0.
-
-  Definition calc_forces (c : cfg) (s : state) (x : list T) : list T :=
-    map (calc_force c s x) (seq 0 (length (c_vars c))).
-
   (* ---- colvarbias_meta::update ---- *)
 
   Definition step_state (c : cfg) (s : state) (i : step_in) : state :=
-    let s1 := update_grid_params c s i in
+    let s1 := update_grid_params c s (i_x i) in
     let s2 := update_bias c s1 i in
     if c_use_grids c then update_grid_data c s2 i else s2.
 
-  Definition step (c : cfg) (s : state) (i : step_in) : state * (T * list T) :=
+  Definition step (c : cfg) (s : state) (i : step_in) : state * (T * list value) :=
     let s' := step_state c s i in
     (s', (calc_energy c s' (i_x i), calc_forces c s' (i_x i))).
 
-  Definition final_state (c : cfg) (hist : list step_in) : state :=
-    fold_left (step_state c) hist (init_state c).
+  (* write_state_data: with grids the hills not yet projected are projected before the grids are written *)
+  Definition save_state (c : cfg) (s : state) : state := if c_use_grids c then project c s else s.
+
+  (* ---- restart: write_state_data, then read_state_data in a fresh instance ---- *)
+
+  (* the hills written to the state: all of them without grids or with keepHills, else hills_off_grid *)
+  Definition state_hills (c : cfg) (s : state) : list hill :=
+    if negb (c_use_grids c) || c_keep c then st_old s ++ st_new s else st_off_old s ++ st_off_new s.
+
+  Definition near_hill (c : cfg) (g : list bound) (h : hill) : bool := near_edge c g (h_c h).
+
+  (* read_state_data: the grids (with their geometry) are those of the file; every hill of the file is
+     appended to hills and, when near the edges of the grid just read, to hills_off_grid; new_hills_begin is
+     the end of the list with grids (the hills are on the grids) and its beginning without *)
+  Definition read_state (c : cfg) (s : state) : state :=
+    let hs := state_hills c s in
+    if c_use_grids c
+    then mkState hs [] (filter (near_hill c (st_geom s)) hs) [] (st_e s) (st_g s) (st_geom s) []
+    else mkState [] hs [] [] (st_e s) (st_g s) (st_geom s) [].
+
+  (* rebin_grids_after_restart with the boundaries g' of the new configuration: from the kept hills when the
+     state was written with keepHills and holds hills (project_hills onto empty grids), else from the grids of
+     the state (map_grid); then recount_hills_off_grid when there are hills *)
+  Definition rebin_state (c : cfg) (s : state) (g' : list bound) : state :=
+    if c_use_grids c then
+      let hs := st_old s in
+      let from_hills := c_keep c && match hs with [] => false | _ => true end in
+      let gold := st_geom s in
+      let eold := st_e s in
+      let gradold := st_g s in
+      mkState hs [] (match hs with [] => st_off_old s | _ => filter (near_hill c g') hs end) []
+        (if from_hills
+         then (fun ix => nadd O (n0 O) (hills_energy (c_vars c) (centre (c_vars c) g' ix) hs (n0 O)))
+         else (fun ix => let oix := remap_ix (c_vars c) g' gold ix in
+                         if index_ok (gsizes gold) oix then eold oix else n0 O))
+        (if from_hills
+         then (fun ix k => nsub O (n0 O) (sc (hills_force (c_vars c) (centre (c_vars c) g' ix) k hs [n0 O])))
+         else (fun ix k => let oix := remap_ix (c_vars c) g' gold ix in
+                           if index_ok (gsizes gold) oix then gradold oix k else n0 O))
+        g' (st_traj s)
+    else s.
+
+  Definition restart_state (c : cfg) (s : state) (rebin : option (list bound)) : state :=
+    let s1 := read_state c (save_state c s) in
+    match rebin with None => s1 | Some g' => rebin_state c s1 g' end.
+
+  (* the state read by the instance that wrote it: the hills and off-grid hills in memory are pruned, those of the
+     file take their place; the hills trajectory buffer of the instance is untouched *)
+  Definition reload_state (c : cfg) (s : state) : state :=
+    let s1 := read_state c (save_state c s) in
+    mkState (st_old s1) (st_new s1) (st_off_old s1) (st_off_new s1) (st_e s1) (st_g s1) (st_geom s1) (st_traj s).
+
+  Definition apply_event (c : cfg) (s : state) (e : event) : state :=
+    match e with
+    | EStep i => step_state c s i | ESave => save_state c s | ERestart r => restart_state c s r
+    | EReload => reload_state c s
+    end.
+
+  Definition final_state (c : cfg) (hist : list event) : state :=
+    fold_left (apply_event c) hist (init_state c).
 
   (* observers used by the correspondence driver *)
   Definition grid_energy_at (s : state) (ix : list Z) : T := st_e s ix.
